@@ -40,8 +40,8 @@ def reservoir_head(scn, res, t):
     o = scn['options']
     if not res.get('pattern'):
         return res['head']
-    # WNTR evaluates head patterns at sim_time (no pattern_start): documented under source_head
-    return res['head'] * pattern_value(scn['patterns'][res['pattern']], t, o.get('pattern_step', 3600))
+    # every pattern is offset by pattern_start (as in EPANET)
+    return res['head'] * pattern_value(scn['patterns'][res['pattern']], t + o.get('pattern_start', 0), o.get('pattern_step', 3600))
 
 
 # ---------------------------------------------------------------- reachability
